@@ -392,6 +392,12 @@ func (h *harness) absorb(path string) *childResult {
 		if d.Shared {
 			how = "one shared input value"
 		}
+		if d.G == 0 {
+			h.ctx.Violate(keyOf("history-output-differs", d.Program),
+				fmt.Sprintf("`%s` on %s gives %s when it is the %d-th run through one *Code (one goroutine, runs one after the other) but %s through a fresh *Code: a run depends on the runs made before it on the same Code", clip(d.Program, 200), clip(d.Input, 120), clip(d.Observed, 160), d.R+1, clip(d.Expected, 160)),
+				map[string]any{"program": d.Program, "inputs": d.Inputs, "input": d.Input, "position": d.R, "kind": d.Kind, "observed": d.Observed, "expected": d.Expected})
+			continue
+		}
 		h.ctx.Violate(keyOf("race-output-differs", d.Program),
 			fmt.Sprintf("`%s` on %s gives %s in one of %d concurrent goroutines (%s) but %s when run alone", clip(d.Program, 200), clip(d.Input, 120), clip(d.Observed, 160), d.G, how, clip(d.Expected, 160)),
 			map[string]any{"program": d.Program, "inputs": d.Inputs, "input": d.Input, "G": d.G, "R": d.R, "shared": d.Shared, "query": d.Query, "kind": d.Kind,
